@@ -88,10 +88,13 @@ func (g *GroupMod) MarshalBinary() (data []byte, err error) {
 	n += 4
 	data = append(data, bytes...)
 
-	for _, bkt := range g.Buckets {
-		bytes, err = bkt.MarshalBinary()
-		data = append(data, bytes...)
-		log.Debugf("Groupmod bucket: %v", bytes)
+	// Len() (and therefore Header.Length) excludes the buckets of a delete
+	if g.Command != OFPGC_DELETE {
+		for _, bkt := range g.Buckets {
+			bytes, err = bkt.MarshalBinary()
+			data = append(data, bytes...)
+			log.Debugf("Groupmod bucket: %v", bytes)
+		}
 	}
 
 	log.Debugf("GroupMod(%d): %v", len(data), data)
